@@ -20,7 +20,8 @@ What is varied (the compiler sees genuine edits / options):
     code = 4*a + 2*b + d   a: constant in the main file (a odd -> the source lives in a second
                            directory: "switch between two sources with the same basename"),
                            b: constant in a required module, d: -DDVAL=<d>;  code >= 900: invalid C
-    cmd  = k               --cflags=-DK=<k>
+    cmd  = k               --cflags=-DK=<k>;  k >= 100 additionally --release (the generated C of these programs is the
+                           same with and without --release, so it is purely a change of the compiler command)
     cc   = 0|1             the compiler behind the (constant) --cc wrapper: gcc | clang
     nohead                 -P nocheading         nocache   --no-cache
     out                    -o <scratch>/out/o<n>  (the artefact is then executed by the replayer)
@@ -147,6 +148,8 @@ class Replayer:
 
     def args_of(self, s, cache, outp):
         a = ["--verbose", "--cache-dir", cache, "--cc", self.wrapper, "--cflags=-DK=%d" % s["cmd"], "-DDVAL=%d" % (s["code"] % 2)]
+        if s["cmd"] >= 100:
+            a += ["--release"]
         if s["nohead"]:
             a += ["-P", "nocheading"]
         if s["nocache"]:
